@@ -287,7 +287,7 @@ def _find_coding(text):
         end = start
         while end < len(text):
             c = text[end]
-            if not to_chr(c).isalnum() and c not in b"-_":
+            if not to_chr(c).isalnum() and c not in b"-_.":
                 break
             end += 1
         result = text[start:end]
